@@ -6,9 +6,11 @@ import NmVerif.NN.Views
       input  --reshape(conv_reshape_input)--[pad(conv_pad)]--------------------------------sliding_window--+--multiply
         --sum(conv_sum_axes)--reshape(conv_reshape_reduce)--[add reshape(bias, conv_reshape_bias)]--[slice(conv_slices)]
 
-  The model follows the code, not PyTorch: the group of output channel `o` is `o % groups` (layout `(O/g, g)` of
-  `conv_reshape_weight`), the batch extent is dropped by `conv_reshape_input`, and a dilation pair is applied to
-  the window axes `[-1, -2]` in that order.
+  State of the code mirrored here: /repo with the `fix:` commits for the batch extent (`conv_reshape_input` keeps it:
+  the input is reshaped to `(N, 1, g, C/g, spatial…)`) and for the dilation pair (spacing `i` is
+  `dilation[n_planes-1-i] - 1`, applied to window axis `-(i+1)`).  Still as the code has it, not as PyTorch: the weight
+  is reshaped to `(O/g, g, C/g, kernel…)`, so the group of output channel `o` is `o % groups` (known finding
+  conv.groups-interleaved).
 -/
 namespace NmVerif.NN
 
@@ -33,7 +35,9 @@ def convReshapeInput (src : Shape) (groups nPlanes : Nat) : Shape :=
   let grpAx : Int := -(nPlanes : Int) - 2
   let r := setI r grpAx groups
   let r := setI r (grpAx + 1) (getI src chAx / groups)
-  (List.range nPlanes).foldl (fun r (i : Nat) => setI r (-((i : Int) + 1)) (getI src (-((i : Int) + 1)))) r
+  let r := (List.range nPlanes).foldl (fun r (i : Nat) => setI r (-((i : Int) + 1)) (getI src (-((i : Int) + 1)))) r
+  -- the batch extent of a (N, C, spatial…) input is kept (fix: conv_reshape_input keeps the batch extent)
+  if src.length > nPlanes + 1 then setI r 0 (getI src 0) else r
 
 def convReshapeWeight (src : Shape) (groups nPlanes : Nat) : Shape :=
   let r := List.replicate (src.length + 1) 1
@@ -63,12 +67,12 @@ def convWindowAxis (nPlanes : Nat) : List Int := (List.range nPlanes).map fun (i
 /-- `conv_sum_axes`: `[-1, …, -n, -(2n+1)]` -/
 def convSumAxes (nPlanes : Nat) : List Int := convWindowAxis nPlanes ++ [-(2 * (nPlanes : Int) + 1)]
 
-/-- `conv_expand_spacing`: `dilation[i] - 1` (index array) or `dilation - 1` -/
+/-- `conv_expand_spacing`: entry `i` (for window axis `-(i+1)`) is `dilation[n_planes-1-i] - 1` (index array) or `dilation - 1` -/
 def convExpandSpacing (dilation : PArg) (nPlanes : Nat) : List Nat :=
   match dilation with
   | .none => []
   | .int d => List.replicate nPlanes (d - 1)
-  | .arr ds => (List.range nPlanes).map fun i => ds.getD i 0 - 1
+  | .arr ds => (List.range nPlanes).map fun i => ds.getD (nPlanes - 1 - i) 0 - 1
 
 /-- `conv_pad`: onnx-style widths of the reshaped input, padding on the last `nPlanes` axes -/
 def convPad (srcDim : Nat) (padding : PArg) (nPlanes : Nat) : List Nat :=
